@@ -380,6 +380,7 @@ fn envelope_real(id: i32, ctrls: Vec<RawControl>) -> Vec<u8> {
 
 /// decode a frame with the real decoder: controls list, `none` on a decoding error
 fn envelope_decode(bytes: &[u8]) -> String {
+    crate::out::mark(&format!("env.dec {}", hex(bytes)));
     let b = bytes.to_vec();
     match guarded(move || {
         let mut buf = BytesMut::from(&b[..]);
